@@ -153,6 +153,17 @@ def specRun (s : Spec) : List Op → List Outcome
     | (s', some o) => o :: specRun s' ops
     | (s', none) => specRun s' ops
 
+/-- the code point a character of the model stands for (a lone surrogate travels as a plane-16 carrier, `ProtoReport.lean`) -/
+def pyCode (c : Char) : Nat := if 0x10F800 ≤ c.toNat then c.toNat - 0x10F800 + 0xD800 else c.toNat
+
+/-- does `save_report_into_file` of xml.py succeed when the file's (locale) encoding is `e`?  The serialiser must not raise
+    and every character of the document — written raw, apart from the markup escapes — must be encodable.
+    For `e = utf8` this is `xmlFile … ≠ .error _`. -/
+def xmlSaveOkEnc (e : Encoding) (r : Report) : Bool :=
+  match toXml 0 r with
+  | .error _ => false
+  | .ok x => x.chars.all (fun c => encodable e (pyCode c))
+
 /-- the report value after the modifications among `ops` (saves and loads do not touch it) -/
 def reportAfter (r : Report) : List Op → Report
   | [] => r
